@@ -656,6 +656,9 @@ func (x *Exec) bytesContent(st *State, m memView, s *SliceV) *Term {
 }
 
 var ufSRune = &UF{"srune", []Sort{SStr, SInt}, SInt}
+var ufSRuneLen = &UF{"srunelen", []Sort{SStr}, SInt}
+var ufSRuneSub = &UF{"srunesub", []Sort{SStr, SInt, SInt}, SStr}
+var ufStrOfRunes = &UF{"str_of_runes", []Sort{arrSort(SInt, SInt), SInt, SInt}, SStr}
 var ufStrOfBytes = &UF{"str_of_bytes", []Sort{arrSort(SInt, SInt), SInt, SInt}, SStr}
 
 func (x *Exec) doConvert(st *State, in *ssa.Convert) Value {
@@ -695,6 +698,18 @@ func (x *Exec) doConvert(st *State, in *ssa.Convert) Value {
 					return r
 				}
 			}
+			if el, ok := from.(*types.Slice); ok && scalarSort(el.Elem()) == SInt {
+				// string(runes[off:off+len]): a function of the rune contents; when the array still holds what
+				// []rune(s) produced, it is the rune-substring of s.
+				h := st.getHeap(elemHeapName(el.Elem(), ""), arrSort(SInt, arrSort(SInt, SInt)))
+				content := mkSelect(h, s.Arr)
+				r := ufApp(ufStrOfRunes, content, s.Off, s.Len)
+				for _, ro := range st.runeOrigins {
+					x.assume(mkImplies(mkAnd(mkEq(s.Arr, ro.arr), mkEq(content, ro.content)),
+						mkEq(r, ufApp(ufSRuneSub, ro.s, s.Off, mkAdd(s.Off, s.Len)))))
+				}
+				return r
+			}
 			r := x.fresh("str_of_runes", SStr)
 			return r
 		}
@@ -712,6 +727,7 @@ func (x *Exec) doConvert(st *State, in *ssa.Convert) Value {
 				x.assume(mkEq(ln, ufApp(ufSlen, s)))
 				x.assume(mkEq(ufApp(ufStrOfBytes, x.bytesContent(st, st, res), mkInt(0), ln), s))
 			} else {
+				x.assume(mkEq(ln, ufApp(ufSRuneLen, s)))
 				x.assume(mkCmp("<=", ln, ufApp(ufSlen, s)))
 				x.assume(mkImplies(mkCmp(">", ufApp(ufSlen, s), mkInt(0)), mkCmp(">", ln, mkInt(0))))
 				// []rune(s): element i is the i-th rune of s
@@ -720,6 +736,7 @@ func (x *Exec) doConvert(st *State, in *ssa.Convert) Value {
 				x.assume(mkForall([]*Term{iq}, mkImplies(mkAnd(mkCmp("<=", mkInt(0), iq), mkCmp("<", iq, ln)),
 					mkEq(mkSelect(mkSelect(h, arr), iq), ufApp(ufSRune, s, iq)))))
 				x.assume(mkImplies(mkCmp(">", ln, mkInt(0)), mkEq(mkSelect(mkSelect(h, arr), mkInt(0)), ufApp(ufSRune, s, mkInt(0)))))
+				st.runeOrigins = append(st.runeOrigins[:len(st.runeOrigins):len(st.runeOrigins)], runeOrigin{arr, mkSelect(h, arr), s})
 			}
 			return res
 		}
